@@ -689,7 +689,7 @@ PROPS["C08"]["runners"] = PROPS["C08"]["runners"] + [stress_runner("future", "an
 # TRACE tie (slice `trace`): real concurrent runs, instrumented only where user code can look, are replayed through the interleaving models with
 # the exact acceptor `Failsafe.Conc.Trace.accepts` (accepts_iff: a recorded event list is rejected iff NO interleaving of the model shows it);
 # the recorded list is the replay. Props/C07 and Props/C15 prove what acceptance implies (final_sample_exclusive, early_*_impossible, seen_*_imp).
-_TRACE_DIFF = {"slice": "trace", "recorded": True, "n_quick": 160, "n_thorough": 1600, "seeds_thorough": 3, "n_search": 800, "par": 8}
+_TRACE_DIFF = {"slice": "trace", "recorded": True, "n_quick": 400, "n_thorough": 3000, "seeds_thorough": 3, "n_search": 800, "par": 8}
 for _p in ["C07", "C15"]:
     PROPS[_p]["diff"] = PROPS[_p]["diff"] + [dict(_TRACE_DIFF, slice={"C07": "tracetimeout", "C15": "tracefuture"}[_p])]
     PROPS[_p]["rule"] += ("; trace slice: per case 4 real Timeout applications (alone / under a fallback / async; function durations far below, within "
